@@ -13,7 +13,7 @@
 #ifndef NTHREADS
 #define NTHREADS 2
 #endif
-typedef struct { int bad, steals, pushes, fails; fiber_t* pending; } ghost_t;
+typedef struct { int bad, steals, pushes, fails; fiber_t* pending; int have_local, want, attempted, missed; size_t local0; } ghost_t;
 ghost_t G;
 static size_t stub_size(wsd_work_stealing_deque_t* d);
 #define wsd_work_stealing_deque_size(d) stub_size(d)
@@ -29,9 +29,18 @@ static void spec_env(int site) {}
 static void spec_read(int site, void* addr) {}
 #include "verif_point.inc"
 static int in_table(wsd_work_stealing_deque_t* d) { return __CPROVER_same_object(d, Q) && d >= &Q[0] && d < &Q[2 * NTHREADS]; }
-static size_t stub_size(wsd_work_stealing_deque_t* d) { if (!in_table(d)) G.bad = 1; return (size_t)verif_pick(1000); }
+static size_t stub_size(wsd_work_stealing_deque_t* d) {
+  if (!in_table(d)) G.bad = 1;
+  size_t v = (size_t)verif_pick(1000);
+  if (!G.have_local) { G.have_local = 1; G.local0 = v; if (d != SCH[ME_ID].schedule_from) G.bad = 1; return v; }   /* the first size read is my own schedule_from */
+  /* a remote queue: was the previous one, if it was longer than mine, at least tried? */
+  if (G.want && !G.attempted) G.missed = 1;
+  G.want = (v > G.local0 + (size_t)G.pushes) && G.pushes < 50; G.attempted = 0;
+  return v;
+}
 void* wsd_work_stealing_deque_steal(wsd_work_stealing_deque_t* d) {
   if (!in_table(d) || d == SCH[ME_ID].queue_one || d == SCH[ME_ID].queue_two || G.pending) G.bad = 1;   /* a thief steals from OTHER threads' deques */
+  G.attempted = 1;
   unsigned k = verif_pick(3);
   if (k == 0) { if (G.fails < 100) G.fails++; return WSD_EMPTY; }
   if (k == 1) { if (G.fails < 100) G.fails++; return WSD_ABORT; }
@@ -43,7 +52,7 @@ void wsd_work_stealing_deque_push_bottom(wsd_work_stealing_deque_t* d, void* p) 
 }
 void* wsd_work_stealing_deque_pop_bottom(wsd_work_stealing_deque_t* d) { G.bad = 1; return WSD_EMPTY; }
 void h_balance(void) {
-  G.bad = G.steals = G.pushes = G.fails = 0; G.pending = 0;
+  G.bad = G.steals = G.pushes = G.fails = 0; G.pending = 0; G.have_local = G.want = G.attempted = G.missed = 0; G.local0 = 0;
   fiber_scheduler_num_threads = NTHREADS; fiber_schedulers = SCH; fiber_scheduler_thread_queues = TABLE;
   ME_ID = (size_t)verif_pick(NTHREADS);
   for (int i = 0; i < NTHREADS; i++) {
@@ -56,5 +65,7 @@ void h_balance(void) {
   fiber_scheduler_load_balance((fiber_scheduler_t*)&SCH[ME_ID]);
   VASSERT(!G.bad, "H: C02 load_balance steals only from other kernel threads' deques and pushes only onto its own schedule_from, exactly the fiber it has just stolen");
   VASSERT(G.pending == 0 && G.pushes == G.steals && G.pushes <= 50, "H: C02 every stolen fiber is queued again exactly once before anything else happens (never dropped, never duplicated); at most 50 per call");
+  if (G.want && !G.attempted) G.missed = 1;
+  VASSERT(!G.missed, "H: C10 load_balance tries to steal from every other thread's queue that is longer than its own (a ready fiber queued behind a kernel thread that does not get to run it is not left there: yielding pollers elsewhere cannot starve it)");
   VCANARY("load_balance can return");
 }
